@@ -155,7 +155,8 @@ fn model_a(srcs: &[usize], root: Option<&str>, contents_mask: u64, tok_srcs: &[u
         root: root.map(str::to_string),
         sources: srcs.iter().map(|&i| SRC_POOL[i].to_string()).collect(),
         contents: if contents_mask == 0 { vec![] } else { (0..ns).map(|i| if contents_mask >> i & 1 == 1 { Some(format!("content-{i}")) } else { None }).collect() },
-        names: vec!["n".into(), "m".into(), "n".into()],
+        // "d.js" is also a source name of the pool (names and sources are separate tables)
+        names: vec!["n".into(), "d.js".into(), "n".into()],
         tokens: tok_srcs
             .iter()
             .enumerate()
